@@ -13,6 +13,7 @@ mod c15_json;
 mod c15_typed;
 pub mod c16;
 pub mod c17;
+pub mod c18;
 pub mod smoke;
 
 pub fn all() -> Vec<CheckSpec> {
@@ -27,6 +28,7 @@ pub fn all() -> Vec<CheckSpec> {
         c15::spec(),
         c16::spec(),
         c17::spec(),
+        c18::spec(),
         smoke::spec(),
     ]
 }
